@@ -53,12 +53,11 @@ def jobs_for(ctx):
             add(f"rules3-{fl}", "rules", fl, 3, rules=n3)
             add(f"rules3x-{fl}", "rules", fl, 3, rules=n3x)
     else:
-        add("fields-shell", "fields", "shell", 2, maxfields=2)
+        add("fields-shell", "fields", "shell", 1, maxfields=2)
         add("fields3-shell", "fields", "shell", 24, pick=1, maxfields=3)
         add("fields-python", "fields", "python", 1, maxfields=2)
         add("rules2-python", "rules", "python", 16, pick=1, rules=n2)
         add("rules2-shell", "rules", "shell", 16, pick=1, rules=n2)
-        add("rules3x-shell", "rules", "shell", 27, pick=1, rules=n3x)
     return J
 
 
@@ -100,6 +99,7 @@ def selftest(ctx):
 
 
 def run(ctx):
+    rc.private_hash_cache(ctx.scratch)
     selftest(ctx)
     jobs = jobs_for(ctx)
     procs = min(14, os.cpu_count() or 4, len(jobs))
@@ -159,6 +159,7 @@ def run(ctx):
 
 
 def replay(ctx, rec):
+    rc.private_hash_cache(ctx.scratch)
     c = rec["case"]
     case, level = c["tlc"], c["level"]
     if "proj" not in case:
